@@ -369,6 +369,14 @@ class MagicProperties:
         self._freeze()
 
     def __setattr__(self, key, value):
+        # only properties can be set: a name that exists but is not a property (a method like
+        # `update` or `copy`) must not be overwritten
+        is_property = isinstance(getattr(type(self), key, None), property)
+        if self.__isfrozen and not is_property and not key.startswith("_"):
+            raise AttributeError(
+                f"{type(self).__name__} has no property '{key}'"
+                f"\n Available properties are: {list(self._property_names_generator())}"
+            )
         if self.__isfrozen and not hasattr(self, key):
             raise AttributeError(
                 f"{type(self).__name__} has no property '{key}'"
